@@ -3,7 +3,7 @@ from __future__ import annotations
 
 from functools import partial
 
-from .rules import mirror, tables, keylog, checksum, pcapng, pkn, cli, state, meta, tcp
+from .rules import mirror, tables, keylog, checksum, pcapng, pkn, cli, state, meta, tcp, escape, progress, tls, output, quic
 
 TRUSTED = ["CPython ast parser", "the CFG / dataflow / normaliser / guard evaluator of vt/",
            "frozen reference tables under /verif/ref and in vt/rules (IANA registry copy, RFC layouts, labels)",
@@ -30,6 +30,46 @@ def B2_for(*mods):
     return partial(mirror.rule_B2, pairs=list(mods))
 
 
+prop("C01",
+     lambda tier: [tls.rule_A5, B1_for("decryptor", "session"), tables.rule_T4, tables.rule_T3_classes, tables.rule_T3_iv, tls.rule_types, tls.rule_A4, tls.rule_PAD,
+                   tls.rule_T10, tls.rule_D1, output.rule_A8, tcp.rule_tls_causality],
+     "Decides the necessary structure of per-record state and dispatch: sequence number read/increment pairing, CBC residue chaining from ciphertext, RC4 contexts "
+     "created once, key switch at Finished assigning key+IV+seq of one direction (A5); direction arms are mirror images (B1); decrypt() dispatch equals the record "
+     "protection of every valid (version, bulk) pair, by finite-domain guard evaluation (T4); parser/decryptor/IV-length tables agree (T3); record / handshake type "
+     "constants (T4t); fail-closed gate (A4); TLS 1.3 padding strip (PAD); ClientHello/ServerHello layouts by symbolic cursor and version decision vs the enum (T10); "
+     "only decrypt results reach the payload (D1); records appended and consumed in processing order (A8, CAUS). Does not decide AEAD/CBC/RC4 arithmetic inside "
+     "the cryptography library nor MAC/padding lengths (unit tests cover those at sequence number 0).",
+     ["cryptography's AEAD / CBC / ARC4 implementations"], controls=["c01-drop-seq-increment"])
+
+prop("C02",
+     lambda tier: [quic.rule_D8, quic.rule_T5_quic, quic.rule_T9_aad, quic.rule_T9_hp, quic.rule_epoch, quic.rule_D7b, quic.rule_frame_attrs,
+                   B1_for("quic.quic_session", "quic.quic_dissector", "quic.quic_decryptor", "quic.quic_tls_parser", "quic.quic_output_builder"),
+                   pkn.rule_pn_spaces, progress.rule_A2],
+     "Decides: output grouping merges frames only within one input datagram and emits closed groups with their own time/direction (D8); key-name agreement producer → "
+     "dissector/session with role and epoch, list positions of QuicDecryptor keys, decryptor per packet type (T5q); AAD = header in wire order per header form, nonce "
+     "construction (T9a); header-protection constants (T9h); key-phase epoch rule (EPO); connection-ID matching only on non-empty IDs, CID learning (D7b); frame "
+     "attributes and STREAM/CRYPTO type sets agree between registry, session and builder (A3f); direction arms mirror (B1); packet-number spaces (PNS); coalesced-"
+     "packet loop progress (A2). Does not decide header-protection / AEAD arithmetic, CRYPTO reassembly, key-phase history semantics.",
+     ["cryptography's AEAD implementations; struct.unpack_from semantics"], controls=["c02-merge-without-ts"])
+
+prop("C03",
+     lambda tier: [escape.rule_A1, escape.rule_A1_records, escape.rule_A1_quic_packets, progress.rule_A2, tls.rule_A4, tls.rule_D1, state.rule_D6_ownership],
+     "Decides 'never makes the run fail' as an interprocedural may-raise analysis: every site of classes S1–S6 (raise, index/key lookup, non-total external call, "
+     "possibly-unbound local, attribute not set by every constructor path, data-dependent division) reachable from an iteration of run()'s capture loop or "
+     "finalisation loops is covered by a handler inside that iteration (A1), per record for TLS (A1r), the dissector absorbs its own faults (A1q); every data-driven "
+     "loop makes progress (A2); 'never ciphertext or invented bytes' as gate dominance (A4) and payload provenance (D1); 'never changes other flows' as state "
+     "ownership (D6a). Does not decide that the victim's output is a prefix of the true plaintext under wrong secrets, nor time/memory blow-up, nor exceptions "
+     "outside S1–S6 (MemoryError, RecursionError).",
+     ["the whitelist of total callables printed in vt/rules/escape.py"], controls=["c03-narrow-handler"])
+
+prop("C04",
+     lambda tier: [state.rule_D6_ownership, mirror.rule_B3_match, keylog.rule_D7, quic.rule_D7b, cli.rule_A6c, mirror.rule_B3_bind],
+     "Decides: per-flow classes keep all state on the instance — no class-level mutable attributes, mutable defaults, global writes, shared key list never mutated by "
+     "flow code (D6a); both match predicates test the full 4-tuple in both orientations (B3); secrets are selected by client-random equality on normalised case (D7); "
+     "QUIC datagrams are matched by non-empty connection ID, else by 4-tuple (D7b); session creation gate and role binding (A6c, B3b). Together: a packet can only "
+     "touch the state of the one object it matched and a match needs a discriminating key. Does not decide first-match order effects or QUIC migration.",
+     ["none beyond the trusted base"], controls=["c04-drop-port-conjunct"])
+
 prop("C05",
      lambda tier: [tcp.rule_A9, tcp.rule_A6a, tcp.rule_framing, tcp.rule_tls_causality, B2_for("session"), B1_for("session"),
                    tcp.rule_D9_seq, tcp.rule_expected_seq],
@@ -38,6 +78,32 @@ prop("C05",
      "clearing (FR), single in-order pass (CAUS), server/client twins are mirror images (B1/B2), sequence arithmetic modular (D9s) and "
      "expected-sequence state (XSEQ). Does not decide equality of exported streams over all cut-point sets / permutations.",
      ["dpkt delivers tcp.seq / tcp.data as parsed"], controls=["c05-dedupe-wrong-list"])
+
+prop("C06",
+     lambda tier: [output.rule_D3, output.rule_A7, output.rule_T7_split, B2_for("output_builder"), output.rule_A8, escape.rule_A1],
+     "Decides: everything that reaches the writer is an Ether/IP(v4|v6 per session)/TCP|UDP[/Raw] composition without length/checksum overrides, empty sessions "
+     "contribute nothing, writer loop shape (D3); handshake before data, SYN/SYN-ACK/ACK numbers, per-part seq/ack bookkeeping order (A7); record re-split telescopes "
+     "from 0 to the end with ts[i] per part (T7s); data builders mirror (B2); channels append-only (A8); finalisation loops contained (A1). Does not decide that "
+     "scapy / dpkt emit correct lengths, checksums and block structure.",
+     ["scapy packet building; dpkt.pcapng.Writer"], controls=["c06-ack-before-increment"])
+
+prop("C07",
+     lambda tier: [output.rule_D2, tcp.rule_framing, mirror.rule_B3_bind, B2_for("output_builder", "session"), B1_for("quic.quic_output_builder", "output_builder"),
+                   quic.rule_D8, output.rule_D3],
+     "Decides: timestamps flow without arithmetic from the reader's (ts, buf) pair through Packet.timestamp / record.metadata resp. QuicPacket.ts to the emitted "
+     "(frame, ts) pairs; handshake time = first record's first packet (D2); a record is attributed to exactly the packets overlapping its byte range (FR overlap); "
+     "role binding from the first packet (B3b); address/port/MAC orientation per arm (B1/B2, A7 sender check); QUIC group time and direction travel together (D8); IP "
+     "version follows the session (D3). Does not decide dpkt's float rounding of timestamps.",
+     ["dpkt timestamp conversion"], controls=["c07-handshake-time-last"])
+
+prop("C08",
+     lambda tier: [tcp.rule_tls_causality, output.rule_A8, tcp.rule_framing, escape.rule_A1_records, quic.rule_D8, output.rule_A7],
+     "Decided as the classical argument for online algorithms — every stage is causal, append-only and a left fold, hence the export of a prefix is a prefix of the "
+     "export — each premise being a structural obligation: single in-order pass without look-ahead (CAUS), append-only channels consumed in order (A8), records released "
+     "only when whole and buffers cleared (FR + loop-replay lemma), a fault in record i cannot discard output of records < i (A1r), QUIC groups closed exactly at "
+     "datagram boundaries (D8), builder is a running-sum fold with the handshake once before the first record (A7). Does not decide determinism (C18) nor key-log blocks "
+     "located after the cut.",
+     ["C18 (determinism) assumed"], controls=["c08-lookahead"])
 
 prop("C09",
      lambda tier: [keylog.rule_E2_grammar, keylog.rule_E2_pipeline, keylog.rule_E2_cli, keylog.rule_D7, pcapng.rule_T9_pcapng],
